@@ -24,7 +24,17 @@ RULE = ("trajectory cases: 1..200 beads, 1..6 frames, coordinates of both "
         "per case; atom-count-mismatch frames each read in a fresh process; "
         "xml topologies, tables (flags, error column, comments), IMC "
         "matrices (non-square, non-symmetric, index lists), index ranges; "
-        "csg_map --no-map chains a->b->a on generated xml+gro/dump inputs. "
+        "csg_map --no-map chains a->b->a on generated xml+gro/dump inputs; "
+        "reader variants on harness-written files in the official layouts: "
+        "LAMMPS dump with x|xu|xs coordinate columns (fractions slightly "
+        "outside [0,1), unwrapped images), +/- v and f columns, canonical "
+        "and permuted column order (id not first, unknown extra columns, "
+        "shuffled atom order), box bounds with xlo=0 (judged) and xlo!=0 "
+        "(x/xu judged, xs observed only); gro +/- velocity columns and "
+        "3/9-number box lines; free-format xyz with element names; 80-column "
+        "pdb with ATOM/HETATM/CRYST1/MODEL; DL_POLY CONFIG/HISTORY with "
+        "levcfg 0/1/2 and imcon 1/2/3 (expected values are computed from the "
+        "printed tokens, comparison to 64 ulp). "
         "Oracle: the original in-memory data within half a unit of the "
         "format's last printed digit in VOTCA units (+16 ulp). Every "
         "generated case is non-trivial (random digits beyond the printed "
@@ -34,6 +44,12 @@ RULE = ("trajectory cases: 1..200 beads, 1..6 frames, coordinates of both "
         "the stored witnesses are small.")
 
 FORMATS = ("gro", "xyz", "pdb", "dump")
+# keys of the reader-variant families: dump-reader/{rejected,positions,
+# unwrapped-positions,scaled-positions,column-order,flavour-consistency-
+# unwrapped,flavour-consistency-scaled,velocities,forces,box,step,frame-count,
+# spurious-velocities,topology}; {gro,xyz,pdb,dlpoly}-reader/{rejected,
+# positions,velocities,forces,box,step,frame-count,spurious-velocities,
+# topology}
 
 
 def prebuild():
@@ -381,7 +397,11 @@ def run(chk):
             "xml": vf.tier_n(t, (1, 200), (4, 1500)),
             "table": vf.tier_n(t, (2, 200), (8, 1500)),
             "imc": vf.tier_n(t, (1, 400), (4, 3000)),
-            "atomcount": vf.tier_n(t, (2, 32), (8, 120))}
+            "atomcount": vf.tier_n(t, (2, 32), (8, 120)),
+            # reader variants on harness-written files in the official
+            # layouts (what VOTCA's own writers never produce)
+            "dumpread": vf.tier_n(t, (2, 150), (8, 1200)),
+            "readers": vf.tier_n(t, (1, 240), (4, 2000))}
     n_dlpoly = vf.tier_n(t, 160, 2400)
     n_chain = vf.tier_n(t, 30, 400)
     jobs, labels = [], []
@@ -487,7 +507,16 @@ def run(chk):
         "time is not judged (not part of the statement); DL_POLY first frame "
         "with step 0 yields time=nan, counted only",
         "table flags are drawn from i/o/u; comments are not expected to be "
-        "restored, only not to corrupt the data"]
+        "restored, only not to corrupt the data",
+        "reader variants that no VOTCA writer produces and the statement "
+        "(round trips) does not cover are observed and counted, not judged: "
+        "LAMMPS bounds with xlo != 0 (the xs path yields x - xlo, the x path "
+        "x), gro files with other than 3 decimals (the reader uses fixed "
+        "8-character columns), tab separated xyz atom lines, DL_POLY imcon 0 "
+        "files without cell lines are not generated",
+        "LAMMPS dump forces: either calorie (41.84 / 41.868 kJ/mol/nm per "
+        "kcal/mol/A) is accepted here; the disagreement is C20's known "
+        "finding"]
     shutil.rmtree(work, ignore_errors=True)
 
 
